@@ -14,7 +14,10 @@ def recursive_sort(obj):
     if isinstance(obj, dict):
         return sorted((k, recursive_sort(_normalize_type(v))) for k, v in obj.items())
     if isinstance(obj, list):
-        return sorted(recursive_sort(_normalize_type(x)) for x in obj)
+        # order by serialized form, which is defined for any mix of item types
+        return sorted(
+            (recursive_sort(_normalize_type(x)) for x in obj), key=json.dumps
+        )
     else:
         return obj
 
@@ -23,5 +26,6 @@ def _normalize_type(value):
     if isinstance(value, dict) or isinstance(value, list):
         return value
 
-    # enables comparison between different types when sorting
-    return str(value)
+    # enables comparison between different types when sorting,
+    # while keeping values of different JSON types apart (1 vs "1", null vs "None")
+    return json.dumps(value)
